@@ -31,7 +31,57 @@ def text_of(name, n, salt):
     return ('AE' + 'X' * 62)[:min(n, 16)]
 
 
-def run_sequence(cls_index, ops, rng, max_len, unset=0.0):
+def measure(pdus, fa, fb, ev='SEND'):
+    """One transmission (list of P-DATA-TF PDUs) -> (event for Trace_MsgObject, problem or None)."""
+    cmd, ndata = b'', 0
+    for p in pdus:
+        _, pdvs, _ = D.parse_pdata(p)
+        for c, h, payload in pdvs:
+            if h & 1:
+                cmd += payload
+            else:
+                ndata += 1
+    try:
+        elems = cmdset.read(cmd)
+    except cmdset.CmdError as exc:
+        return None, 'command set unreadable: %s' % exc
+    tags = [t for t, _ in elems]
+    d = dict(elems)
+    pos, after = 0, -1
+    for t, val in elems:
+        pos += 8 + len(val)
+        if t == 0:
+            after = len(cmd) - pos
+    e = {'ev': ev, 'glen': cmdset.as_int(d[0]) if 0 in d and len(d[0]) == 4 else -1, 'after': after,
+         'asc': all(a < b for a, b in zip(tags, tags[1:])) and tags[:1] == [0],
+         'code': cmdset.as_int(d[cmdset.TAG_COMMAND_FIELD]) if cmdset.TAG_COMMAND_FIELD in d else -1,
+         'flag': cmdset.as_int(d[cmdset.TAG_DS_TYPE]) if cmdset.TAG_DS_TYPE in d else -1, 'ndata': ndata}
+    if ev == 'SEND':
+        e['lenA'] = len(d.get(TAG[fa], b'')) if fa else 0
+        e['lenB'] = len(d.get(TAG[fb], b'')) if fb else 0
+    return e, None
+
+
+class QueueDul(object):
+    """Provider stub that, like the real one, only QUEUES what send() hands over; the P-DATA generators are run
+    later (drain), after the application has gone on changing the message object."""
+
+    def __init__(self):
+        self.queue = []
+        self.max_pdu_length = 1 << 20
+
+    def send(self, item):
+        self.queue.append(item)
+
+    def drain(self):
+        out = []
+        for item in self.queue:
+            out.append([item] if hasattr(item, 'pdu_type') else list(item))
+        self.queue = []
+        return out
+
+
+def run_sequence(cls_index, ops, rng, max_len, unset=0.0, lazy=False):
     """Returns (trace, problems).  unset: probability with which an optional / conditional numeric field is left
     without a value (as the services do for Move Originator Message ID, Priority, the sub-operation counters...)."""
     cls = D.dm.MESSAGE_TYPE[CODE[cls_index - 1]]
@@ -49,6 +99,10 @@ def run_sequence(cls_index, ops, rng, max_len, unset=0.0):
             setattr(msg.command_set, name, rng.choice([0, 1, 0xFFFF, rng.randint(0, 0xFFFF)]))
     tr = [{'ev': 'New', 'cls': cls_index}]
     problems = []
+    lazy_assoc = None
+    if lazy:
+        lazy_assoc = D.bare_association(max_len)
+        lazy_assoc.dul = QueueDul()
     for o in ops:
         if o['op'] == 'A':
             if fa is None:
@@ -65,6 +119,12 @@ def run_sequence(cls_index, ops, rng, max_len, unset=0.0):
         elif o['op'] == 'DS':
             msg.data_set = {'none': None, 'empty': b'', 'bytes': b'\x08\x00\x05\x00\x04\x00\x00\x00ISO '}[o['v']]
             tr.append({'ev': 'DS', 'v': o['v']})
+        elif lazy:
+            try:
+                lazy_assoc.send(msg, 1)            # queued; encoded when the queue is drained
+            except Exception as exc:      # noqa
+                problems.append('Association.send raised %s: %s' % (type(exc).__name__, exc))
+                break
         else:
             assoc = D.bare_association(max_len)
             try:
@@ -73,34 +133,62 @@ def run_sequence(cls_index, ops, rng, max_len, unset=0.0):
             except Exception as exc:      # noqa
                 problems.append('Association.send raised %s: %s' % (type(exc).__name__, exc))
                 break
-            cmd, ndata = b'', 0
-            for p in pdus:
-                _, pdvs, _ = D.parse_pdata(p)
-                for c, h, payload in pdvs:
-                    if h & 1:
-                        cmd += payload
-                    else:
-                        ndata += 1
-            try:
-                elems = cmdset.read(cmd)
-            except cmdset.CmdError as exc:
-                problems.append('command set unreadable: %s' % exc)
+            e, pr = measure(pdus, fa, fb)
+            if pr:
+                problems.append(pr)
                 break
-            tags = [t for t, _ in elems]
-            d = dict(elems)
-            pos = 0
-            after = -1
-            for t, val in elems:
-                pos += 8 + len(val)
-                if t == 0:
-                    after = len(cmd) - pos
-            tr.append({'ev': 'SEND', 'glen': cmdset.as_int(d[0]) if 0 in d and len(d[0]) == 4 else -1, 'after': after,
-                       'asc': all(a < b for a, b in zip(tags, tags[1:])) and tags[:1] == [0],
-                       'code': cmdset.as_int(d[cmdset.TAG_COMMAND_FIELD]) if cmdset.TAG_COMMAND_FIELD in d else -1,
-                       'flag': cmdset.as_int(d[cmdset.TAG_DS_TYPE]) if cmdset.TAG_DS_TYPE in d else -1,
-                       'ndata': ndata,
-                       'lenA': len(d.get(TAG[fa], b'')) if fa else 0, 'lenB': len(d.get(TAG[fb], b'')) if fb else 0})
+            tr.append(e)
+    if lazy and not problems:
+        try:
+            sent = lazy_assoc.dul.drain()
+        except Exception as exc:      # noqa
+            problems.append('encoding the queued messages raised %s: %s' % (type(exc).__name__, exc))
+            sent = []
+        for pdus in sent:
+            e, pr = measure(pdus, fa, fb, ev='LSEND')
+            if pr:
+                problems.append(pr)
+                break
+            tr.append(e)
     return tr, problems
+
+
+def concurrent_sends(rng, nthreads=6, per_thread=120):
+    """Several threads (as many associations) send at the same time; every transmission must still be one well-formed
+    command group.  Returns (traces, problems)."""
+    import sys as _sys
+    import threading
+    old = _sys.getswitchinterval()
+    out, problems = [], []
+
+    def worker(k):
+        r = random.Random(1000 + k)
+        for j in range(per_thread):
+            c = r.randint(1, 23)
+            cls = D.dm.MESSAGE_TYPE[CODE[c - 1]]
+            msg = D.fill(cls(), r)
+            if j % 3 == 0:
+                msg.data_set = b'\x08\x00\x05\x00\x04\x00\x00\x00ISO '
+            assoc = D.bare_association(r.choice([16384, 64]))
+            try:
+                assoc.send(msg, 1)
+                e, pr = measure(assoc.dul.sent[0], None, None, ev='LSEND')
+            except Exception as exc:      # noqa
+                e, pr = None, 'Association.send raised %s: %s' % (type(exc).__name__, exc)
+            if pr:
+                problems.append((c, pr))
+            else:
+                out.append([{'ev': 'New', 'cls': c}, e])
+    _sys.setswitchinterval(1e-6)
+    try:
+        ths = [threading.Thread(target=worker, args=(k,)) for k in range(nthreads)]
+        for t in ths:
+            t.start()
+        for t in ths:
+            t.join()
+    finally:
+        _sys.setswitchinterval(old)
+    return out, problems
 
 
 def main(tier='quick'):
@@ -130,11 +218,18 @@ def main(tier='quick'):
             else:
                 ops.append({'op': 'SEND'})
         ops.append({'op': 'SEND'})
-        tr, problems = run_sequence(c, ops, rng, rng.choice([16384, 128, 20]), unset=(0.35 if i % 2 else 0.0))
-        metas.append({'cls': c, 'ops': ops, 'src': 'random', 'unset': (0.35 if i % 2 else 0.0)})
+        lazy = (i % 5 == 4)
+        tr, problems = run_sequence(c, ops, rng, rng.choice([16384, 128, 20]), unset=(0.35 if i % 2 else 0.0), lazy=lazy)
+        metas.append({'cls': c, 'ops': ops, 'src': 'random-lazy' if lazy else 'random', 'unset': (0.35 if i % 2 else 0.0), 'lazy': lazy})
         traces.append(tr)
         for pr in problems:
             v.report({'site': 'dimsemessages', 'clause': 'send', 'cls': c}, '%s (class %d, ops %r)' % (pr, c, ops), replay=metas[-1])
+    ctr, cpr = concurrent_sends(rng, 6, 120 if tier == 'quick' else 1500)
+    for c, pr in cpr:
+        v.report({'site': 'dimsemessages', 'clause': 'send-concurrent', 'cls': c}, '%s (class %d, %d threads sending at once)' % (pr, c, 6), replay={'cls': c, 'ops': [], 'src': 'concurrent'})
+    for tr in ctr:
+        traces.append(tr)
+        metas.append({'cls': tr[0]['cls'], 'ops': [], 'src': 'concurrent'})
     res, stats = tlc.validate_traces('Trace_MsgObject', 'Trace_MsgObject.cfg', traces, chunk=6000)
     for tr, r, meta in zip(traces, res, metas):
         if r['ok']:
@@ -160,7 +255,9 @@ def main(tier='quick'):
 
 def replay(doc):
     meta = doc['replay']
-    runs = [run_sequence(meta['cls'], meta['ops'], random.Random(k), 16384, unset=meta.get('unset', 0.0)) for k in range(12 if meta.get('unset') else 1)]
+    if meta.get('src') == 'concurrent':
+        return main('quick')
+    runs = [run_sequence(meta['cls'], meta['ops'], random.Random(k), 16384, unset=meta.get('unset', 0.0), lazy=meta.get('lazy', False)) for k in range(12 if meta.get('unset') else 1)]
     res, _ = tlc.validate_traces('Trace_MsgObject', 'Trace_MsgObject.cfg', [tr for tr, _ in runs])
     for (tr, problems), r in zip(runs, res):
         if problems or not r['ok']:
